@@ -228,6 +228,13 @@ def run(prop, tier, seed, rep):
                                                   "second_connection": job[5] if len(job) > 5 else [], "sent": ev["sent"],
                                                   "printed": ev["printed"], "alive": ev["alive"], "exit": ev["exit"], "panic": ev["panic"]})
     json.dump(summary, open(os.path.join(core.BUILD, f"last_{prop}_verdicts.json"), "w"), indent=1, sort_keys=True)
+    if tier == "thorough":
+        idx = next(i for i, e in enumerate(events) if len([x for x in e["sent"] if x["wf"] == 1]) >= 2 and e["alive"] == 1)
+        def drop(e):
+            wf = [x["text"] for x in e["sent"] if x["wf"] == 1]
+            e["printed"] = [p for p in e["printed"] if p != wf[0]]
+            return e
+        core.anti_vacuity(rep, "Trace_Feed", events[:idx + 5], [(idx, drop, "C16")], name="C16-selftest")
     by = {}
     for e in events:
         k = f"{e['client']}|{e['tag']}"
